@@ -19,9 +19,10 @@ def opt_triple(o):
 
 def gen_send_cases(run):
     rng = run.rng
-    lens = [0, 1, 2, 56, 57, 58, 115, 116, 117, 118, 174, 175, 176, 7548, 7549, 7550, 7606, 7607, 7608, 7609, 7610, 65535, 65536]
-    for k in (3, 10, 50, 100, 127):
-        lens += [57 + 59 * k - 1, 57 + 59 * k, 57 + 59 * k + 1]
+    lens = [0, 1, 2, 54, 55, 56, 57, 58, 59, 7548, 7549, 7550, 7606, 7607, 7608, 7609, 7610, 65535, 65536]
+    for k in (1, 2, 3, 10, 50, 100, 127):
+        lens += [57 + 59 * k + d for d in (-3, -2, -1, 0, 1, 2)]
+    n_boundary = len(lens)
     n_rand = 200 if run.tier == "quick" else 1500
     for _ in range(n_rand):
         r = rng.random()
@@ -33,12 +34,17 @@ def gen_send_cases(run):
     for i, n in enumerate(lens):
         ch = chans[i % len(chans)] if i < 40 else rng.randrange(0, 1 << 32)
         cmd = COMMANDS[i % len(COMMANDS)]
+        # the boundary lengths come in every style (a stale tail shows only when the bytes before it are not zero), the rest at random
         style = rng.randrange(4)
         if style == 0: payload = bytes(rng.randrange(256) for _ in range(n))
         elif style == 1: payload = bytes([0xFF]) * n        # non-zero tail makes stale-buffer bugs visible
         elif style == 2: payload = bytes((j * 7 + 1) % 256 for j in range(n))
         else: payload = bytes([0]) * n
         cases.append({"op": "send", "ch": ch, "cmd": cmd, "payload": payload.hex()})
+        if i < n_boundary and n <= 7700:
+            for alt in (bytes([0xFF]) * n, bytes((j * 7 + 1) % 256 for j in range(n)), bytes(rng.randrange(1, 256) for _ in range(n))):
+                if alt != payload:
+                    cases.append({"op": "send", "ch": ch, "cmd": cmd, "payload": alt.hex()})
     return cases
 
 
